@@ -360,9 +360,33 @@ class Verifier(Engine):
                 m_new, _ = self.spec_value(pre_state, ctr.decreases, ctr)
                 m_old, _ = self.spec_value(self.entry, ctr.decreases, ctr)
                 self.oblige('dec:recursion@s%s' % site, st, z3.And(m_new.t >= 0, m_new.t < m_old.t))
+        # a pure callee whose contract is `result == <expr>` is used as that expression (no fresh symbol: the call may
+        # occur under a quantifier, e.g. __eq__ inside `x in list`)
+        if ctr.eq_on_ref == 'contract' and len(ctr.ensures) == 1 and not ctr.modifies:
+            node = ctr.parse(ctr.ensures[0])
+            if isinstance(node, ast.Compare) and isinstance(node.left, ast.Name) and node.left.id == 'result' \
+                    and len(node.ops) == 1 and isinstance(node.ops[0], ast.Eq):
+                s2 = st.fork()
+                s2.env = dict(env)
+                s2.spec = True
+                v = self.ev.ev(s2, node.comparators[0])
+                for f in s2.pc[len(st.pc):]:
+                    st.assume(f)
+                return v
         # havoc what the callee may modify
         for fld in ctr.modifies:
-            self.havoc_field(st, fld)
+            if '.' in fld and not fld.startswith('$'):
+                # 'param.field': only that object's field changes (frame: every other object keeps its value)
+                pn, fn_ = fld.split('.', 1)
+                tgt = env.get(pn)
+                if not isinstance(tgt, VRef):
+                    raise OutOfSubset('modifies %s: %s is not an object' % (fld, pn))
+                kind = self.field_kind(tgt.cls, fn_)
+                if kind is None:
+                    raise BindingError('modifies %s: unknown field' % fld)
+                self.write_field(st, tgt.t, fn_, kind, fresh(kind, 'mod_' + fn_))
+            else:
+                self.havoc_field(st, fld)
         res = fresh(ctr.returns, 'r_' + qual.rsplit('.', 1)[-1]) if ctr.returns != 'none' else VNONE
         if ctr.fresh_result and isinstance(res, (VRef, VList)):
             r = st.alloc('res')
